@@ -44,7 +44,11 @@ def resOf (r : String) : Option Res :=
   else if r == "err:invalid" then some .errInvalid
   else none
 
-def behOf (b : String) : Beh := if b == "block" then .block else if b == "panic" then .panic else .ret
+/-- the model's task behaviours.  `bpanic` / `berr` (stay inside Run until released, then panic / return an
+    error) are `.block` for the acceptor: the model ignores the value `task.Run` returns, and a panic followed by
+    the wrapper's recover leaves the worker where a normal return leaves it (`c10_panic_contained`), so the
+    snapshots of a released held task are the same whatever way it ends. -/
+def behOf (b : String) : Beh := if held b then .block else if b == "panic" then .panic else .ret
 
 structure SeqCtx where
   prop : String
@@ -102,7 +106,7 @@ def seqStep (model : Bool) (x : SeqCtx) (op obs : String) : SeqCtx × Option Str
         { mon1 with returned := ((parseInts (res.drop 3).toString).getD []).map Int.toNat } else mon1
     -- an accepted blocking task that the scenario never released keeps Shutdown from completing by the
     -- scenario's own doing (only shrunk replays contain such cases): that hang is not the pool's
-    let unreleased := mon1.tasks.any fun t => t.accepted && t.beh == "block" && !t.released
+    let unreleased := mon1.tasks.any fun t => t.accepted && held t.beh && !t.released
     let rad := (fieldNat obs "runatdone").getD 0
     let rs := sn.runs.toArray
     let e2 : Option String :=
